@@ -362,6 +362,9 @@ class Oracle:
                 self.check_scan()
             else:
                 self.check_no_stray_signals(op)
+        if self.on('c05') and sim.joined and not getattr(self, 'drain_checked', 0):
+            self.drain_checked = 1
+            self.check_limits_while_draining()
 
     # ------------------------------------------------------------------
     # C11: reference limiter written from the statement
@@ -554,6 +557,31 @@ class Oracle:
     # ------------------------------------------------------------------
     def check_no_stray_signals(self, op):
         pass
+
+    def check_limits_while_draining(self):
+        """A pool without helper threads has no scanner thread: while join()
+        drains the outstanding work its result handler runs the time-limit scan
+        itself, once per (at most one second long) round of its loop.  A job
+        that completes *successfully* inside join() more than one such round
+        after its hard limit had expired was never scanned."""
+        sim = self.sim
+        if sim.config.get('threads', True):
+            return
+        for mj in sim.jobs:
+            if mj.kind != 'apply' or mj.handle is None or mj.discarded:
+                continue
+            at = getattr(mj, 'success_at', None)
+            p = mj.parts[None]
+            hard = self.hard_limit(mj)
+            if not at or not at[1] or not hard or not p.ack_delivered:
+                continue
+            due = max(p.ack_time + hard, getattr(p, 'ack_delivered_at', 0.0))
+            if at[0] > due + 1.0 + 0.05:
+                raise Violation('C05/not-timed-out/while-draining',
+                                'job %d accepted %.2f limit %r completed at %.2f '
+                                'inside join() of a pool without helper threads, '
+                                'never timed out' % (mj.idx, p.ack_time, hard,
+                                                     at[0]))
 
     def check_scan(self):
         sim = self.sim
